@@ -186,9 +186,12 @@ fn judge(spec: &FaultSpec, run: &RunOut, end: &EndState, panics: &[String], orac
     if !fs.is_empty() {
         return fs;
     }
-    let mut m = RefStore::fresh(spec.wcfg.allow_duplicates);
-    m.max_data = spec.wcfg.max_data_in_blob;
-    m.max_size = spec.wcfg.max_blob_size;
+    let mut m0 = RefStore::fresh(spec.wcfg.allow_duplicates);
+    m0.max_data = spec.wcfg.max_data_in_blob;
+    m0.max_size = spec.wcfg.max_blob_size;
+    // candidate models: a failed write / unconditional delete may or may not have created the
+    // active blob before it failed; both are carried until a later outcome tells them apart
+    let mut cands: Vec<RefStore> = vec![m0];
     // value bytes of every write, by op index, and whether it was acknowledged
     let mut acked_values: Vec<(KeyId, Vec<u8>)> = Vec::new();
     let mut failed_values: Vec<(KeyId, Vec<u8>)> = Vec::new();
@@ -205,69 +208,99 @@ fn judge(spec: &FaultSpec, run: &RunOut, end: &EndState, panics: &[String], orac
             }
             _ => (String::new(), None),
         };
-        if ok {
-            let mut m2 = m.clone();
-            let exp = oracle::apply_model(&mut m2, st.op, &tag, 4);
-            // lifecycle calls may fail on their precondition
-            if let (oracle::Expect::Res(Res::Err), Outcome::Res(Res::Ok, _)) = (&exp, &st.outcome) {
-                fs.push(finding("outcome", format!("{} returned Ok, model says Err", st.op.short())));
-            }
-            m = m2;
-            if let Some(b) = bytes {
-                acked_values.push(b);
-            }
-        } else {
-            // an error is only acceptable from the call during which the fault fired, or from a
-            // lifecycle call whose precondition does not hold
-            let mut m2 = m.clone();
-            let exp = oracle::apply_model(&mut m2, st.op, &tag, 4);
-            let precondition = matches!(exp, oracle::Expect::Res(Res::Err));
-            if precondition {
-                m = m2;
-            } else if !st.fired_here {
-                fs.push(finding(
-                    "error_without_fault",
-                    format!(
-                        "{} (step {i}) failed although the fault {}: {:?}",
-                        st.op.short(),
-                        if fault_seen { "had already cleared" } else { "had not fired yet" },
-                        st.outcome
-                    ),
-                ));
-                return fs;
-            }
-            // a failed write / unconditional delete may still have created the active blob
-            if matches!(st.op, Op::Write { .. } | Op::Delete { oip: false, .. }) && !precondition {
-                m.ensure_active();
-            }
-            if let Some(b) = bytes {
-                failed_values.push(b);
-            }
-        }
         if !st.worker_alive {
             fs.push(finding("worker_dead", format!("after {} (step {i}) the worker is gone", st.op.short())));
             return fs;
         }
-        // everything acknowledged reads back; nothing that failed is visible
-        for (k, ko) in &st.obs {
-            let want = oracle::model_key_obs(&m, *k, &[0]);
-            if ko.read != want.read || ko.contains != want.contains || ko.all_wdm != want.all_wdm {
-                fs.push(finding(
-                    "session_answers",
-                    format!(
-                        "after {} (step {i}{}) k{k}: read {:?} / list {:?}, model of acknowledged operations: {:?} / {:?}",
-                        st.op.short(),
-                        if st.fired_here { ", the faulted call" } else { "" },
-                        ko.read,
-                        ko.all_wdm,
-                        want.read,
-                        want.all_wdm
-                    ),
-                ));
-                return fs;
+        let mut next: Vec<RefStore> = Vec::new();
+        let mut rejected: Vec<Finding> = Vec::new();
+        for m in &cands {
+            let mut out: Vec<RefStore> = Vec::new();
+            let mut m2 = m.clone();
+            let exp = oracle::apply_model(&mut m2, st.op, &tag, 4);
+            if ok {
+                // lifecycle calls may fail on their precondition
+                if let (oracle::Expect::Res(Res::Err), Outcome::Res(Res::Ok, _)) = (&exp, &st.outcome) {
+                    rejected.push(finding("outcome", format!("{} (step {i}) returned Ok, model says Err", st.op.short())));
+                    continue;
+                }
+                out.push(m2);
+                // a background request returns before it is carried out: if the fault fired
+                // while the worker carried it out, the worker logs the error and nothing changes
+                if st.fired_here && matches!(st.op, Op::Rot | Op::ForceNever | Op::CloseBg | Op::CreateBg | Op::RestoreBg) {
+                    out.push(m.clone());
+                }
+            } else {
+                // an error is only acceptable from the call during which the fault fired, or from a
+                // lifecycle call whose precondition does not hold
+                let precondition = matches!(exp, oracle::Expect::Res(Res::Err));
+                if precondition {
+                    out.push(m2);
+                } else if !st.fired_here {
+                    rejected.push(finding(
+                        "error_without_fault",
+                        format!(
+                            "{} (step {i}) failed although the fault {}: {:?}",
+                            st.op.short(),
+                            if fault_seen { "had already cleared" } else { "had not fired yet" },
+                            st.outcome
+                        ),
+                    ));
+                    continue;
+                } else {
+                    out.push(m.clone());
+                    if matches!(st.op, Op::Write { .. } | Op::Delete { oip: false, .. }) && m.active.is_none() {
+                        let mut with_active = m.clone();
+                        with_active.ensure_active();
+                        out.push(with_active);
+                    }
+                }
+            }
+            // everything acknowledged reads back; nothing that failed is visible
+            for m3 in out {
+                let mut bad = None;
+                for (k, ko) in &st.obs {
+                    let want = oracle::model_key_obs(&m3, *k, &[0]);
+                    if ko.read != want.read || ko.contains != want.contains || ko.all_wdm != want.all_wdm {
+                        bad = Some(finding(
+                            "session_answers",
+                            format!(
+                                "after {} (step {i}{}) k{k}: read {:?} / list {:?}, model of acknowledged operations: {:?} / {:?}",
+                                st.op.short(),
+                                if st.fired_here { ", the faulted call" } else { "" },
+                                ko.read,
+                                ko.all_wdm,
+                                want.read,
+                                want.all_wdm
+                            ),
+                        ));
+                        break;
+                    }
+                }
+                match bad {
+                    Some(f) => rejected.push(f),
+                    None => {
+                        if !next.contains(&m3) {
+                            next.push(m3);
+                        }
+                    }
+                }
+            }
+        }
+        if next.is_empty() {
+            fs.extend(rejected.into_iter().take(1));
+            return fs;
+        }
+        cands = next;
+        if let Some(b) = bytes {
+            if ok {
+                acked_values.push(b);
+            } else {
+                failed_values.push(b);
             }
         }
     }
+    let m = cands.remove(0);
     // after restart
     if let Some(e) = &run.restart_err {
         fs.push(finding("restart", format!("init after the session failed: {e}")));
